@@ -20,6 +20,7 @@ import time
 VERIF = os.path.dirname(os.path.abspath(__file__))
 LEAN = os.path.join(VERIF, 'lean')
 WORK = os.path.join(VERIF, '.work')
+REPO = os.environ.get('VERIF_REPO', '/repo')   # scratch copies are used only when scoring seeded changes
 PY = '/venv/bin/python'
 PYVT = 'python3-vt'
 STD_AXIOMS = {'propext', 'Classical.choice', 'Quot.sound'}
@@ -57,7 +58,7 @@ class Lock:
 
 
 def regen():
-    rc, out, err = run(['python3', os.path.join(VERIF, 'translator', 'py2lean.py')], timeout=300)
+    rc, out, err = run(['python3', os.path.join(VERIF, 'translator', 'py2lean.py'), '--repo', REPO], timeout=300)
     if rc == 3:
         return False, out.strip()
     if rc != 0:
@@ -292,7 +293,7 @@ def check_property(pid, tier_):
         interp = PYVT if P.get('probe_python') == 'vt' else PY
         penv = dict(env)
         if interp == PYVT:
-            penv['PYTHONPATH'] = '/repo' + (':' + os.environ['PYTHONPATH'] if os.environ.get('PYTHONPATH') else '')
+            penv['PYTHONPATH'] = REPO + (':' + os.environ['PYTHONPATH'] if os.environ.get('PYTHONPATH') else '')
         if broken:
             penv['VERIF_AIMED'] = '1'
         cmd = [interp, os.path.join(VERIF, 'harness', 'probes', P['probe']), '--out', outp]
@@ -429,7 +430,7 @@ def replay(path):
         interp = PYVT if P.get('probe_python') == 'vt' else PY
         env = {}
         if interp == PYVT:
-            env['PYTHONPATH'] = '/repo'
+            env['PYTHONPATH'] = REPO
         rc, out, err = run([interp, os.path.join(VERIF, 'harness', 'probes', P['probe']), '--replay', path],
                            cwd=VERIF, env=env, timeout=3000)
         sys.stdout.write(out)
